@@ -14,11 +14,21 @@ def _resname(i):
 
 
 def gen_restype(g, name, atypes, idx, allow_vs=True, allow_angles=True, max_atoms=4, shape=None, impossible_p=0.0,
-                vs_p=0.25, improper_p=0.0, strained_p=0.0, conflict_p=0.0):
+                vs_p=0.25, improper_p=0.0, strained_p=0.0, conflict_p=0.0, local_strain_p=0.0):
     """One residue type: 1..max_atoms uniquely named atoms joined by bonds/constraints
     (tree or ring), optional angles, optional virtual site."""
     n = g.randint(1, max_atoms)
     prefix = ATOM_LETTERS[idx % len(ATOM_LETTERS)]
+    if local_strain_p and g.random() < local_strain_p:
+        # a chain of 8-10 beads with one contradiction at its start: a 1-3 bond longer than the two bonds it spans can
+        # reach.  The optimum leaves those three bonds ~0.06 nm off while all other bonds are exact.
+        n = g.randint(8, 10)
+        b = 0.30
+        atoms = [{"name": f"{prefix}{k + 1}", "atype": g.choice(atypes)} for k in range(n)]
+        bonds = [[k, k + 1, b, 5000] for k in range(n - 1)] + [[0, 2, round(2 * b + g.uniform(0.16, 0.2), 3), 5000]]
+        return {"vs3_before_vs2": False, "vs_zero_mass": False, "name": name, "atoms": atoms, "bonds": bonds,
+                "constraints": [], "angles": [], "angle_functs": [], "vsites": [], "blen": b, "impossible": False,
+                "impropers": [], "strained": True, "conflict": False, "propers": [], "local_strain": True}
     atoms = [{"name": f"{prefix}{k + 1}", "atype": g.choice(atypes)} for k in range(n)]
     bonds = []
     constraints = []
@@ -188,7 +198,8 @@ def gen_moltype(g, name, restypes, shape=None, nres=None, maxres=10):
     else:
         seq = [g.choice(names) for _ in range(nres)]
     edges = gen_resgraph(g, "linear" if shape == "single" else shape, nres)
-    return {"name": name, "shape": shape, "residues": seq, "edges": edges, "nrexcl": 1}
+    # (nrexcl is an atom-level setting of the topology; GROMOS/OPLS style files use 3)
+    return {"name": name, "shape": shape, "residues": seq, "edges": edges, "nrexcl": g.choice([1, 1, 2, 3])}
 
 
 # ----------------------------------------------------------------------------- rendering
@@ -387,7 +398,8 @@ def gen_system(g, profile):
                                    shape=g.choice(profile["res_shapes"]) if profile.get("res_shapes") else None,
                                    impossible_p=profile.get("impossible_p", 0.0), vs_p=profile.get("vs_p", 0.25),
                                    improper_p=profile.get("improper_p", 0.0), strained_p=profile.get("strained_p", 0.0),
-                                   conflict_p=profile.get("conflict_p", 0.0))
+                                   conflict_p=profile.get("conflict_p", 0.0),
+                                   local_strain_p=profile.get("local_strain_p", 0.0))
     if g.random() < profile.get("sol_p", 0.0):
         # the GROMACS default water residue name (some coordinate readers drop it by default)
         last = sorted(restypes)[-1]
